@@ -259,7 +259,9 @@ func (j *reproduceExpectedPCR0Job) Execute(
 			err                   error
 		}
 
-		resultCh := make(chan iterationResult, concurrencyFactor+1)
+		// one slot per goroutine started below (there may be up to 2*concurrencyFactor-1
+		// of them): they all may send a result before wg.Wait() returns.
+		resultCh := make(chan iterationResult, (maxCombinationID+combinationsPerRoutine)/combinationsPerRoutine)
 		var wg sync.WaitGroup
 		for startCombinationID := uint64(0); startCombinationID <= maxCombinationID; startCombinationID += combinationsPerRoutine {
 			wg.Add(1)
